@@ -148,6 +148,28 @@ def cond_truth_of_call(p, callee, argpred=None):
 COUNTER_OK = {}      # kernel member name -> True once S12 has shown it equals the run queue's length
 
 
+def validate_counters(chk, m, K):
+    """A kernel member that the wake-up / fast-path decisions test against 0: is it the run queue's length (S12)?  Sets COUNTER_OK."""
+    known = {"current", "state", "now", "runq", "atomic_runq", "timerq", "taint_flags"}
+    tested = set()
+    for fname in ("get_next_wakeup", "fibre_scheduler_next"):
+        if m.has_fn(fname):
+            try:
+                ps_ = fn_paths(m, fname)[1]
+            except AnalysisError:
+                continue
+            for p_ in ps_:
+                for c_, t_, i_ in p_.conds:
+                    for x in paths.subexprs(c_):
+                        if x[0] == "ld" and x[1] is not None and K.member_of(x[1]) and K.member_of(x[1])[1] == 0:
+                            tested.add(K.member_of(x[1])[0])
+    for extra in [k for k in K.members if k not in known and k in tested]:
+        if check_counter_tracks_runq(chk, m, K, extra) is True:
+            COUNTER_OK[extra] = True
+        else:
+            COUNTER_OK.pop(extra, None)
+
+
 def queue_empty_facts(p, K):
     """{'runq' | 'timerq' | 'atomic': (True = known empty | False = known non-empty, event index of the test)} on path p.
     Recognised tests: list_empty(q), messageq_empty(&atomic_runq), q.head == NULL, list_peek(q) == NULL."""
